@@ -3,5 +3,6 @@
 set -e
 cd "$(dirname "$0")"
 mkdir -p .build evidence replays
+./extract/run.sh >/dev/null
 (cd lean && lake build 2>&1 | tail -5)
 echo setup done
